@@ -427,13 +427,18 @@ def main():
                 # numeric literals that are new in the changed functions steer the search: the harness is
                 # rebuilt for capacities around them and the wide families run there as well
                 steer = [t for t in srcfp.thresholds(fp) if 8 < t <= (1 << 17)][:24]
+                if "size_of" in (fp.get("new_features") or []) or any("size_of" in str(v.get("new_features")) for v in (fp.get("detail") or {}).values()):
+                    # a new threshold on the element size: the steerable element type S is made larger than it
+                    big = [l for l in fp.get("new_literals", []) if 64 <= l <= 16384]
+                    if big:
+                        os.environ["VERIF_EXTRA_ELEM_WORDS"] = str(max(big) // 8 + 1)
                 if steer:
                     import cases as C
                     os.environ["VERIF_EXTRA_CAPS"] = ",".join(map(str, steer))
                     C.STEERED.update(steer)
                     for lst in (C.WIDE_E, C.WIDE_U8):
                         lst.extend(x for x in steer if x not in lst)
-            if tier == "quick" or steer:
+            if tier == "quick" or steer or os.environ.get("VERIF_EXTRA_ELEM_WORDS"):
                 # quick tier with a changed source text: the quick density at the steered capacities (minutes);
                 # otherwise the thorough case space
                 wide_tier = "quick" if (tier == "quick" and not fp_ok and proofs_ok and corr_ok) else "thorough"
@@ -449,6 +454,7 @@ def main():
             print("search failed: %s" % ex)
         finally:
             os.environ.pop("VERIF_EXTRA_CAPS", None)
+            os.environ.pop("VERIF_EXTRA_ELEM_WORDS", None)
         if found:
             r, (c, k, why) = found
             path = write_replay(pid, "oracle", {
